@@ -7,7 +7,8 @@ EXPLANATION = ("static analysis; equality after json round trip is not claimed. 
                "abstractly) records directedness, the graph attributes, one entry {attrs, id} per node of G and exactly "
                "one link {source, target, time} per instant of every interval, unswapped; node_link_graph (interpreted "
                "on symbolic data) builds the class the data names (the argument only when the data does not say), adds "
-               "every node under its id with the remaining attributes, and one add_interaction(source, target, time) per link")
+               "every node under its id with the remaining attributes, and one add_interaction(source, target, time) per link"
+               ";  the writer is called with a caller-chosen id key; make_str(x) == str(x) on attribute keys; no state shared between calls (P7)")
 
 
 def run(repo: Repo, tier, rep: Report):
